@@ -35,9 +35,56 @@ fn check(index: usize, input: &str) -> Option<String> {
 
 const ALPHABET: &[&str] = &["a", "7", " ", "\n", ";", "-", "(", "$", "\"", "\\", "\u{e9}", "\u{20ac}", "\u{1F600}"];
 
+/// One character per UTF-8 lead byte (0xC2..=0xF4): the smallest and the largest scalar value it introduces.
+fn lead_byte_representatives() -> Vec<char> {
+  let mut v = vec![];
+  let mut last_lead = 0u8;
+  let mut prev: Option<char> = None;
+  for cp in 0x80u32..=0x10FFFF {
+    if let Some(c) = char::from_u32(cp) {
+      let mut buf = [0u8; 4];
+      let lead = c.encode_utf8(&mut buf).as_bytes()[0];
+      if lead != last_lead {
+        if let Some(p) = prev {
+          v.push(p);
+        }
+        v.push(c);
+        last_lead = lead;
+      }
+      prev = Some(c);
+    }
+  }
+  v.push(prev.unwrap());
+  v.dedup();
+  v
+}
+
 pub fn find(args: &[String]) -> i32 {
   let max_len: usize = args.first().and_then(|s| s.parse().ok()).unwrap_or(4);
   let mut tried = 0u64;
+  // (a) every lead byte of UTF-8: x ++ c ++ y for the first and last character of each lead byte,
+  // x and y drawn from a few one-character contexts, every index
+  let ctx = ["", "a", " ", "\"", ";", "\n", "\u{e9}"];
+  for c in lead_byte_representatives() {
+    for x in ctx.iter() {
+      for y in ctx.iter() {
+        let s = format!("{}{}{}", x, c, y);
+        for index in 0..=s.len() {
+          if !s.is_char_boundary(index) {
+            continue;
+          }
+          tried += 1;
+          if let Some(why) = check(index, &s) {
+            println!(
+              "{{\"found\":true,\"tried\":{},\"witness\":{{\"index\":{},\"input\":{},\"input_hex\":\"{}\"}},\"real\":{}}}",
+              tried, index, jstr(&s), hex(s.as_bytes()), jstr(&why)
+            );
+            return 1;
+          }
+        }
+      }
+    }
+  }
   let mut cur: Vec<usize> = vec![];
   // iterative enumeration of all strings over ALPHABET up to max_len characters
   loop {
@@ -82,7 +129,9 @@ pub fn find(args: &[String]) -> i32 {
 // Bounded stand-in (labelled) for the part of C15 no contract reaches: the Position reported by
 // the REAL parser for a rejected document (convert_pest_error: index, range, line, column).
 
-const DOC_TOKENS: &[&str] = &["a", " = ", "b", "\"\u{e9}\u{e9}\"", " / ", "\n", "; c\u{20ac}\n", "[", "\u{1F600}", "1", "\r\n", " "];
+const DOC_TOKENS: &[&str] = &[
+  "a", " = ", "b", "\"\u{e9}\u{e9}\"", " / ", "\n", "; c\u{20ac}\n", "[", "\u{1F600}", "1", "\r\n", " ", "; \u{e9}\u{65e5}", "\u{905}",
+];
 
 /// None when the reported position is consistent, Some(reason) otherwise.
 fn check_position(doc: &str) -> Option<String> {
